@@ -1,6 +1,7 @@
 package props
 
 import (
+	"bytes"
 	"encoding/binary"
 	"fmt"
 	"math/bits"
@@ -354,6 +355,70 @@ func c14padBits(enc []byte, p uint8, n int) int {
 		bitsUsed += int(d>>p) + 1 + int(p)
 	}
 	return len(enc)*8 - bitsUsed
+}
+
+// c14hugeSpan (thorough tier only): N*M above 2^63, so that two member values
+// differ by 2^63 or more - the range in which a comparison written as a signed
+// difference, or any arithmetic that assumes values fit 63 bits, goes wrong.
+// The specified encoding of such a set has at least 2^31 unary bits (256 MiB),
+// which is why there is a single case.
+func c14hugeSpan(c *vf.Ctx, i int) {
+	r := c.R
+	key := gcsKey(r)
+	const P = 32
+	M := uint64(1)<<63 - 1
+	nm := 2 * M
+	var a, b []byte
+	for tries := 0; tries < 1000; tries++ {
+		x, y := r.Bytes(8), r.Bytes(8)
+		vx, vy := ref.GCSValue(key, x, nm), ref.GCSValue(key, y, nm)
+		if vx > vy {
+			vx, vy = vy, vx
+		}
+		if vy-vx >= 1<<63 && vy>>P < 1<<32 {
+			a, b = x, y
+			break
+		}
+	}
+	if a == nil {
+		c.Inconclusive("huge-span-items-not-found")
+		return
+	}
+	data := [][]byte{a, b}
+	if i%2 == 1 {
+		data = [][]byte{b, a}
+	}
+	desc := func() string { return fmt.Sprintf("key=%x P=%d M=%d items %x %x", key, P, M, data[0], data[1]) }
+	var f *gcs.Filter
+	var err error
+	if !c.Call("BuildGCSFilter", desc, func() { f, err = gcs.BuildGCSFilter(P, M, key, data) }) {
+		return
+	}
+	if err != nil || f == nil {
+		c.Failf("BuildGCSFilter/error", "%s: BuildGCSFilter failed: %v", desc(), err)
+		return
+	}
+	want := ref.GCSEncode(key, P, M, data)
+	var got []byte
+	if !c.Call("Filter.Bytes", desc, func() { got, _ = f.Bytes() }) {
+		return
+	}
+	c.Evals(1)
+	c.Count("huge_span_filter_bytes", int64(len(want)))
+	if !bytes.Equal(got, want) {
+		c.Failf("BuildGCSFilter/bytes", "%s: filter bytes (%d) differ from the reference Golomb-Rice encoding (%d bytes) %s", desc(), len(got), len(want), c14firstDiff(got, want, P))
+		return
+	}
+	for _, it := range data {
+		var m bool
+		if c.Call("Filter.Match", desc, func() { m, _ = f.Match(key, it) }) {
+			c.Evals(1)
+			if !m {
+				c.Failf("Filter.Match/member-missed", "%s: member %x is not reported by the filter built from it", desc(), it)
+			}
+		}
+	}
+	c.Nontrivial(vf.Mix(0x14e, vf.HashBytes(key[:])))
 }
 
 func c14grid(c *vf.Ctx, i int) { c14encodeWorld(c, gcsGridCfg(c.R, i)) }
@@ -998,6 +1063,7 @@ func init() {
 		Streams: []*vf.Stream{
 			{Name: "random", N: func(t vf.Tier) int { return t.Sz(3000, 30000) }, Run: c14random, RlimitAS: gcsRlimit, MaxCaseSec: 120},
 			{Name: "grid", N: func(t vf.Tier) int { return gcsGridCount() * t.Sz(1, 2) }, Run: c14grid, RlimitAS: gcsRlimit},
+			{Name: "huge-span", Workers: 1, N: func(t vf.Tier) int { return t.Sz(0, 1) }, Run: c14hugeSpan, RlimitAS: gcsRlimit, MaxCaseSec: 600},
 			{Name: "reduction", N: func(t vf.Tier) int { return 2 + t.Sz(2500, 25000) }, Run: c14reduction},
 			{Name: "blocks", N: func(t vf.Tier) int { return t.Sz(40000, 150000) }, Run: c14block, RlimitAS: gcsRlimit},
 			{Name: "chain", N: func(t vf.Tier) int { return t.Sz(30000, 100000) }, Run: c14chain, RlimitAS: gcsRlimit},
